@@ -88,5 +88,11 @@ def run_campaigns(seed, seconds):
                 blob = json.loads(line)
                 stats.fail(blob["signature"], blob["case"], "[atheris %s/%s] %s" % (mode, corpus, blob["detail"]))
         stats.notes.append({"atheris": "%s/%s" % (mode, corpus), "execs": execs, "exit": p.returncode})
+        if p.returncode not in (0, None):
+            # stopped by the hang watchdog (or crashed): let C06 confirm the last guarded call in isolation
+            from ..checks import c06
+            st2 = c06.on_worker_death(p.pid, {"name": "atheris:%s/%s" % (mode, corpus)}, p.returncode)
+            if st2 is not None:
+                stats.merge(st2)
     shutil.rmtree(scratch, ignore_errors=True)
     return stats
